@@ -415,6 +415,16 @@ pub fn filter_is_match(
     calls: &[(bool, FilterSpec<'_>)],
     path: &str,
 ) -> Result<bool, String> {
+    filter_is_match_after(calls, &[], path)
+}
+
+/// Like [`filter_is_match`], after the same set has answered the queries
+/// `earlier` (the runner asks one set about every case of the tree).
+pub fn filter_is_match_after(
+    calls: &[(bool, FilterSpec<'_>)],
+    earlier: &[&str],
+    path: &str,
+) -> Result<bool, String> {
     let mut set = FilterSet::default();
     for (inclusive, spec) in calls {
         let filter = match spec {
@@ -428,6 +438,9 @@ pub fn filter_is_match(
         } else {
             set.exclude(filter);
         }
+    }
+    for p in earlier {
+        let _ = set.is_match(p);
     }
     Ok(set.is_match(path))
 }
